@@ -255,8 +255,12 @@ unmangle!(
 
     pub extern "C" fn mz_deflateBound(_stream: *mut mz_stream, source_len: c_ulong) -> c_ulong {
         cmp::max(
-            128 + (source_len * 110) / 100,
-            128 + source_len + ((source_len / (31 * 1024)) + 1) * 5,
+            cmp::max(
+                128 + (source_len * 110) / 100,
+                128 + source_len + ((source_len / (31 * 1024)) + 1) * 5,
+            ),
+            // Forced static blocks can need 9 bits for every literal (same term as zlib's bound).
+            128 + source_len + ((source_len + 7) >> 3) + ((source_len + 63) >> 6),
         )
     }
 
